@@ -51,6 +51,7 @@ func (c *ctx) walk(u *universe, o walkOpts) {
 	c.mismatchExpr = "xmismatches (" + o.Proj + ") cases"
 	c.perFile = 250
 	emitted := 0
+	richSeen := 0
 	for wi := 0; wi < o.Worlds; wi++ {
 		nSh := []int{2, 2, 1, 3, 2}[wi%5]
 		sysShard := uint32(wi % nSh)
@@ -58,7 +59,9 @@ func (c *ctx) walk(u *universe, o walkOpts) {
 		w := u.stdWorld(nSh, sysShard, gas)
 		u.rich = false
 		u.populate(w)
+		specialIdx := 0
 		if wi%2 == 1 {
+			richSeen++
 			u.populateRich(w) // every other world: balances beyond 64 bits, nonces past 256, pre-holding destinations, more address shapes
 		}
 		g := newGen(c, u, w)
@@ -168,8 +171,13 @@ func (c *ctx) walk(u *universe, o walkOpts) {
 			for _, m := range o.Monitors {
 				m(c, w, pre, sr, hist)
 			}
-			if special { // tour steps and their deliveries are always re-evaluated by the model
-				c.addExecCase(w, sr.Call, sr.Res)
+			if special {
+				// tour steps and their deliveries are re-evaluated by the model: all of them in the first six rich worlds of a run, every eighth
+				// (a different residue per world) in the later ones of a thorough run - the monitors judge every step in every world
+				if richSeen <= 6 || specialIdx%8 == wi%8 {
+					c.addExecCase(w, sr.Call, sr.Res)
+				}
+				specialIdx++
 			} else if (o.EmitProb <= 1 || c.rng.Intn(o.EmitProb) == 0) && (o.MaxCases == 0 || emitted < o.MaxCases) {
 				c.addExecCase(w, sr.Call, sr.Res)
 				emitted++
